@@ -32,6 +32,7 @@
  * the 2^61-byte wrap of the bit counters; key/salt contents other than the
  * three patterns.
  */
+#include <sys/mman.h>
 #include <sys/wait.h>
 
 #include <stdint.h>
@@ -165,7 +166,7 @@ static void b_h256(const uint8_t * k, size_t kl, const void * p, size_t n, uint8
 static void b_h1(const uint8_t * k, size_t kl, const void * p, size_t n, uint8_t * d){ HMAC_SHA1_Buf(k, kl, p, n, d); }
 static void b_hm5(const uint8_t * k, size_t kl, const void * p, size_t n, uint8_t * d){ HMAC_MD5_Buf(k, kl, p, n, d); }
 
-enum { A_SHA256, A_SHA1, A_MD5, A_HSHA256, A_HSHA1, A_HMD5, A_NALG, A_CRC = A_NALG, A_PBKDF2, A_LONG };
+enum { A_SHA256, A_SHA1, A_MD5, A_HSHA256, A_HSHA1, A_HMD5, A_NALG, A_CRC = A_NALG, A_PBKDF2, A_LONG, A_CRCHUGE };
 static const struct alg ALG[A_NALG] = {
 	{ "sha256", 1, 0, sizeof(SHA256_CTX), 32, i_s256, u_s256, f_s256, b_s256, EVP_sha256 },
 	{ "sha1", 2, 0, sizeof(SHA1_CTX), 20, i_s1, u_s1, f_s1, b_s1, EVP_sha1 },
@@ -542,11 +543,73 @@ long_unit(int alg)
 	EVP_MD_CTX_free(oc); free(P);
 }
 
+/* ------------------------------------------------------------------ one CRC32C_Update call of 2^32 bytes and more */
+/*
+ * The message is a 4 MiB block mapped back to back (one memfd, no real memory), so that a single
+ * CRC32C_Update(buf + align, 2^32 + delta) can be made; the expected remainder is computed by polynomial
+ * arithmetic on the period (ref_crc32c_remainder_rep).  A length or block count kept in 32 bits shows here.
+ */
+#define HUGE_PERIOD ((size_t)4 << 20)
+static const struct { int64_t delta; unsigned align; } HUGE[] = {
+	{ 45, 1 }, { 8, 0 }, { 0, 5 },		/* every tier and C03 profile */
+	{ -1, 0 }, { 7, 7 }, { 8, 3 }, { 16, 0 }, { 45, 0 }, { 1, 1 }, { 64, 4 }, { 9, 7 }, { 15, 2 }, { 4096, 6 },
+};
+#define NHUGE_ALL (sizeof(HUGE) / sizeof(HUGE[0]))
+static void
+crchuge_unit(int idx)
+{
+	uint64_t len = ((uint64_t)1 << 32) + (uint64_t)HUGE[idx].delta, reps, i;
+	size_t align = HUGE[idx].align, nh = HUGE_PERIOD - align, nt, total = ((size_t)1 << 32) + 3 * HUGE_PERIOD;
+	uint8_t * P, * base, out[24];
+	CRC32C_CTX c;
+	uint32_t rem;
+	char sig[160], rj[200], h1[16];
+	int fd = memfd_create("crchuge", 0);
+
+	if (fd < 0 || ftruncate(fd, (off_t)HUGE_PERIOD)) vf_engine_error("memfd_create/ftruncate");
+	P = mmap(NULL, HUGE_PERIOD, PROT_READ | PROT_WRITE, MAP_SHARED, fd, 0);
+	base = mmap(NULL, total, PROT_NONE, MAP_PRIVATE | MAP_ANONYMOUS | MAP_NORESERVE, -1, 0);
+	if (P == MAP_FAILED || base == MAP_FAILED) vf_engine_error("mmap (huge CRC32C message)");
+	hc_fill(P, HUGE_PERIOD, 0, 9);
+	for (i = 0; i < total / HUGE_PERIOD; i++)
+		if (mmap(base + i * HUGE_PERIOD, HUGE_PERIOD, PROT_READ, MAP_SHARED | MAP_FIXED, fd, 0) == MAP_FAILED) vf_engine_error("mmap MAP_FIXED (huge CRC32C message)");
+	reps = (len - nh) / HUGE_PERIOD; nt = (size_t)((len - nh) % HUGE_PERIOD);
+	vf_setcase("crc32c one Update call of 2^32%+lld bytes at alignment %zu", (long long)HUGE[idx].delta, align);
+	memset(&c, 0xA5, sizeof(c)); memset(out, CANARY, sizeof(out));
+	CRC32C_Init(&c);
+	CRC32C_Update(&c, base + align, (size_t)len);
+	CRC32C_Final(out + 8, &c);
+	rem = ref_crc32c_remainder_rep(P + align, nh, P, HUGE_PERIOD, reps, P, nt, out + 8);
+	snprintf(rj, sizeof(rj), "{\"h\":\"hash\",\"alg\":\"crc32c-huge\",\"rt\":%d,\"idx\":%d}", cur_rt, idx);
+	if (rem != 0)
+		vf_violation(mksig(sig, sizeof(sig), "crc32c", "remainder-huge", 1), rj, "1||data||crc is not a multiple of the Castagnoli polynomial for ONE Update call of 2^32%+lld bytes (alignment %zu): crc %s, remainder 0x%08x",
+		    (long long)HUGE[idx].delta, align, vf_hex(h1, sizeof(h1), out + 8, 4), rem);
+	if (!canary_ok(out, sizeof(out), 8, 12))
+		vf_violation(mksig(sig, sizeof(sig), "canary-final", "crc32c", 1), NULL, "CRC32C_Final wrote outside cbuf[4] (huge)");
+	munmap(base, total); munmap(P, HUGE_PERIOD); close(fd);
+	vf_count("crc32c-huge.states", 1); vf_count("crc32c-huge.transitions", 1); vf_count("crc32c-huge.traces", 1); vf_count("crc32c-huge.units_done", 1);
+	if (idx == 0) vf_sample("crc32c: one Update call of 2^32%+lld bytes at alignment %zu: remainder of 1||data||crc is 0", (long long)HUGE[idx].delta, align);
+}
+
+/* the periodic reference must agree with the bit-by-bit one (checked on a short periodic message) */
+static void
+crchuge_selftest(void)
+{
+	uint8_t m[7 + 5 * 13 + 4], crc[4];
+	size_t i;
+
+	for (i = 0; i < sizeof(m); i++) m[i] = (uint8_t)(i < 7 ? 0xC0 + i : i >= 7 + 5 * 13 ? 0x11 * (i - 71) : 0x35 * ((i - 7) % 13) + 1);
+	ref_crc32c_expected(m, sizeof(m), crc);
+	if (ref_crc32c_remainder(m, sizeof(m), crc) != 0 || ref_crc32c_remainder_rep(m, 7, m + 7, 13, 5, m + 72, 4, crc) != 0) vf_engine_error("ref_crc32c_remainder_rep disagrees with ref_crc32c_remainder");
+	crc[2] ^= 4;
+	if (ref_crc32c_remainder_rep(m, 7, m + 7, 13, 5, m + 72, 4, crc) != ref_crc32c_remainder(m, sizeof(m), crc) || ref_crc32c_remainder(m, sizeof(m), crc) == 0) vf_engine_error("ref_crc32c_remainder_rep (wrong crc)");
+}
+
 /* ------------------------------------------------------------------ units */
 struct unit { int alg, content, klen, aux; };
 static struct unit * units; static uint64_t nunits_hash;
 static uint64_t expected_units[16];	/* per family, for the exhaustive flag */
-static const char * famname(int alg){ return (alg < A_NALG ? ALG[alg].name : alg == A_CRC ? "crc32c" : alg == A_PBKDF2 ? "pbkdf2" : "longrun"); }
+static const char * famname(int alg){ return (alg < A_NALG ? ALG[alg].name : alg == A_CRC ? "crc32c" : alg == A_PBKDF2 ? "pbkdf2" : alg == A_CRCHUGE ? "crc32c-huge" : "longrun"); }
 static int famindex(int alg){ return (alg); }
 
 static void
@@ -565,6 +628,7 @@ build_units(void)
 
 	/* the expensive units first, so that the pool is balanced */
 	if (do_long && (algmask & BIT_LONG)) for (a = A_SHA256; a <= A_MD5; a++) if (algmask & ALG[a].bit) add_unit(A_LONG, 0, -1, a);
+	if (algmask & BIT_CRC) for (i = 0; i < (int)(profile == P_THOROUGH ? NHUGE_ALL : profile == P_QUICK ? 6 : 3); i++) add_unit(A_CRCHUGE, 0, -1, i);
 	for (a = 0; a < A_NALG; a++) {
 		if (!(algmask & ALG[a].bit)) continue;
 		for (c = 0; c < HC_NCONTENT; c++) {
@@ -586,6 +650,7 @@ run_hash_unit(uint64_t u)
 		else hash_search(U->alg, U->content, U->klen, L_hash, K_hash, nK_hash, 0, NULL, NULL, NULL);
 	} else if (U->alg == A_CRC) crc_search(U->content);
 	else if (U->alg == A_PBKDF2) pbkdf2_unit(U->content, U->aux);
+	else if (U->alg == A_CRCHUGE) crchuge_unit(U->aux);
 	else long_unit(U->aux);
 }
 
@@ -629,7 +694,7 @@ iso_child(void * arg)
 	if (I->u < nunits_hash) {
 		const struct unit * U = &units[I->u];
 		run_hash_unit(I->u);
-		check_hash_paths(I->rt, U->alg != A_CRC, U->alg == A_CRC);
+		check_hash_paths(I->rt, U->alg != A_CRC && U->alg != A_CRCHUGE, U->alg == A_CRC || U->alg == A_CRCHUGE);
 	}
 #ifdef H_COMBINED
 	else {
@@ -696,6 +761,7 @@ replay(const char * js)
 		pbkdf2_case(content, (size_t)hc_json_int(js, "plen", 0), (size_t)hc_json_int(js, "slen", 0), (uint64_t)hc_json_int(js, "c", 1), (size_t)hc_json_int(js, "dklen", 0), 1);
 		return (0);
 	}
+	if (!strcmp(algname, "crc32c-huge")) { crchuge_unit((int)hc_json_int(js, "idx", 0)); return (0); }
 	if (!strcmp(algname, "crc32c")) {
 		uint8_t * M = malloc(65536), cb[4], want[4]; CRC32C_CTX c; size_t n = 0; uint32_t rem; char h1[16], h2[16], sig[160];
 		hc_fill(M, 65536, content, 1);
@@ -773,13 +839,13 @@ main(int argc, char ** argv)
 #endif
 	if (vf_replay) { replay(vf_replay); return (vf_finish()); }
 
-	for (a = 0; a <= A_LONG; a++) if (expected_units[a]) { char k[64]; snprintf(k, sizeof(k), "%s.exhaustive", famname(a)); vf_count(k, 0); }
+	for (a = 0; a <= A_CRCHUGE; a++) if (expected_units[a]) { char k[64]; snprintf(k, sizeof(k), "%s.exhaustive", famname(a)); vf_count(k, 0); }
 	if (rtloop) { for (i = 0; i < 16; i++) if ((i & ~HC_BUILD_MASK) == 0) rtlist[nrt++] = i; }
 	else nrt = 1;
 	vf_parallel(nunits_total * (uint64_t)nrt, pool_unit);
 
 	/* exhaustive only if every unit of the family ended at its fixed point */
-	for (a = 0; a <= A_LONG; a++) if (expected_units[a]) {
+	for (a = 0; a <= A_CRCHUGE; a++) if (expected_units[a]) {
 		char k[64], k2[64];
 		snprintf(k, sizeof(k), "%s.units_done", famname(a)); snprintf(k2, sizeof(k2), "%s.exhaustive", famname(a));
 		if (vf_getcount(k) == expected_units[a] * (uint64_t)nrt) vf_setmax(k2, 1);
